@@ -324,12 +324,25 @@ func runnerMain() int {
 						mu.Unlock()
 					case ok && frame != "":
 						// a library goroutine panicked: confirm by re-running that seed alone
-						cr2 := runChunk(spec.Property, base, chunk{ck.scenario, idx, 1}, spec.Race)
-						os.Remove(cr2.outFile)
-						msg2, frame2 := panicTopFrame(cr2.stderr)
+						same := false
+						msg2, frame2 := "", ""
+						for try := 0; try < 4 && !same; try++ {
+							cr2 := runChunk(spec.Property, base, chunk{ck.scenario, idx, 1}, spec.Race)
+							os.Remove(cr2.outFile)
+							msg2, frame2 = panicTopFrame(cr2.stderr)
+							same = cr2.err != nil && frame2 == frame
+						}
+						// a panic raised inside go-res that killed the process
+						// counts even when the replays do not die the same
+						// way: the library itself has become nondeterministic
+						// (for instance through a sync.Pool)
+						inLib := strings.HasPrefix(frame, "github.com/jirenius/go-res")
 						mu.Lock()
-						if cr2.err != nil && frame2 == frame {
+						if same || inLib {
 							v := &Violation{Property: spec.Property, Class: "panic", Signature: frame, Detail: msg + "\n" + firstLines(cr.stderr[max(0, strings.LastIndex(cr.stderr, "\npanic: ")):], 30)}
+							if !same {
+								v.Detail = "(the process died in this run; four replays of the run did not die the same way)\n" + v.Detail
+							}
 							if !spec.OwnsPanics {
 								a.abortedByPanic++
 							} else if _, seen := panicViol[v.Key()]; !seen {
